@@ -186,6 +186,9 @@ class AsyncSimpleClient:
             except asyncio.TimeoutError:  # pragma: no cover
                 raise TimeoutError()
             if not self.connected:
+                if self.input_buffer:
+                    # an event arrived before the connection ended for good
+                    break
                 raise DisconnectedError()
             try:
                 await asyncio.wait_for(self.input_event.wait(),
